@@ -111,6 +111,14 @@ CLAIMS = {
         note=BASE_NOTE + "Non-empty parent domain in the generated cases. The implementation also rebinds the operand's variable to "
              "a list inside the output; using that variable afterwards is outside the property.",
         tech="Lean 4 proof (unfolding the evaluator on the concatenate node) + differential correspondence"),
+    'C10': dict(
+        text="ForAll.lean transliterates ForAll._evaluate__ (after fix 877c1d1). c10_forall_uniform_partial: for a non-empty "
+             "universal domain and a condition whose disjunctions mention the same variables on both sides, the rows are exactly the "
+             "projections of the assignments f with c(f, u) true for EVERY u (true_output_total, sols_mem, denote_congr by "
+             "induction). The unrestricted statement is false of the code: c10_nonuniform_witness (by decide) = known finding "
+             "C10-F1. Correspondence: c mentioning universal+free / only free / only universal variables, outer conjunct, caching.",
+        note=BASE_NOTE + "The outer-conjunct form and caching are covered by correspondence (cache: findings C05-F1, C05-F3).",
+        tech="Lean 4 proof (induction on the condition; intersection invariant over the universal values) + differential correspondence"),
 }
 
 ALL = ['C%02d' % i for i in range(1, 21)]
